@@ -189,7 +189,9 @@ int32_t jls_buf_wr_str(struct jls_buf_s * self, const char * cstr) {
 
 int32_t jls_buf_wr_bin(struct jls_buf_s * self, const void * data, uint32_t data_size) {
     ROE(jls_buf_realloc(self, self->length + data_size));
-    memcpy(self->cur, data, data_size);
+    if (data_size) {
+        memcpy(self->cur, data, data_size);
+    }
     self->cur += data_size;
     self->length += data_size;
     return wr_end(self);
